@@ -431,12 +431,8 @@ class KernelOrderIndependence(Contract):
 
     @staticmethod
     def observe(bp):
-        knl = bp.program.default_entrypoint
-        return ([str(i) for i in knl.instructions],
-                [(a.name, str(getattr(a, "shape", None)), str(a.dtype))
-                 for a in knl.args],
-                sorted(knl.temporary_variables),
-                [str(d) for d in knl.domains], sorted(bp.bound_arguments))
+        from pyvc.det_programs import observe_kernel
+        return observe_kernel(bp)
 
     def run(self, h, inst):
         prog = inst["prog"]
